@@ -402,11 +402,10 @@ def aggregate(prop, plan, results):
                         counters[k] = counters.get(k, 0) + v
                 for k, v in ec.get("info", {}).items():
                     extra_cov.setdefault(k, v)
-                if "exhaustive" in ec:
-                    key = "exhaustive_parts"
-                    extra_cov.setdefault(key, [])
-                    if ec.get("exhaustive_scope") and ec["exhaustive_scope"] not in extra_cov[key] and ec["exhaustive"]:
-                        extra_cov[key].append(ec["exhaustive_scope"])
+                if ec.get("exhaustive") and ec.get("exhaustive_scope"):
+                    exh = extra_cov.setdefault("_exh", {})
+                    sc = "[%s] %s" % (fl, ec["exhaustive_scope"])
+                    exh[sc] = max(exh.get(sc, 0), ec.get("evals", 0) + ec.get("cases", 0))
             cr = s.get("cross")
             if cr:
                 for k, v in cr.get("counts", {}).items():
@@ -454,9 +453,11 @@ def aggregate(prop, plan, results):
     if matrix:
         coverage["matrix"] = dict(sorted(matrix.items()))
     coverage.update(extra_cov)
-    if extra_cov.get("exhaustive_parts"):
+    exh = coverage.pop("_exh", None)
+    if exh:
+        parts = [k for k, _ in sorted(exh.items(), key=lambda kv: -kv[1])][:3]
         coverage["exhaustive"] = True
-        coverage["exhaustive_scope"] = "ONLY these finite tables were enumerated completely (everything else is sampled): " + " | ".join(extra_cov["exhaustive_parts"])
+        coverage["exhaustive_scope"] = "ONLY these finite tables were enumerated completely (everything else is sampled), largest first: " + " | ".join(parts)
     return {"violations": viols, "coverage": coverage, "inconclusive": inconc}
 
 
